@@ -839,3 +839,24 @@ def field_accesses(F, adt, field):
                         if isinstance(e, dict) and e.get('adt') == adt and e.get('name') == field:
                             out.append((body, i, 'read', b['term']))
     return out
+
+
+def field_accesses_fn(fn, adt, field):
+    out = []
+    for body in [fn] + fn.promoted:
+        for i, b in enumerate(body.blocks):
+            for s in b['stmts']:
+                if s.get('k') != 'assign':
+                    continue
+                for pl in _places_of_stmt(s):
+                    for e in pl['pr']:
+                        if isinstance(e, dict) and e.get('adt') == adt and e.get('name') == field:
+                            out.append((body, i, 'use', s))
+                rv = s['rv']
+                if rv.get('agg') == 'adt' and rv.get('adt') == adt and field in rv.get('fields', []):
+                    out.append((body, i, 'construct', s))
+            for pl in places_of_term(b['term']):
+                for e in pl['pr']:
+                    if isinstance(e, dict) and e.get('adt') == adt and e.get('name') == field:
+                        out.append((body, i, 'use', b['term']))
+    return out
